@@ -1,0 +1,63 @@
+//go:build verif
+
+// Contracts for the deductive verification machinery kept in /verif (govc).
+// Comment-only file, compiled only under the build tag "verif".
+package cmd
+
+// ---- C20: the release tagger ----------------------------------------------------------
+//
+// Library assumptions (trusted, listed in the evidence): Masterminds/semver's GreaterThan is a strict
+// weak order (irreflexive; "not greater" is transitive), go-errors' Is(e, e) holds for a non-nil e,
+// go-git's read accessors (TagObject, Reference.Hash/Name, ReferenceName.Short, Status.IsClean) are
+// functions of the repository state, which nothing before the tagging step changes, and
+// ReferenceIter.ForEach calls its callback once per reference, in order, stopping at the first error.
+
+//@ axiom semver_irreflexive: forall a *semver.Version :: !a.GreaterThan(a)
+//@ axiom semver_order: forall a, b, c *semver.Version :: !a.GreaterThan(b) && c.GreaterThan(b) ==> !a.GreaterThan(c)
+//@ axiom goerrors_is_refl: forall e error :: e != nil ==> errors.Is(e, e)
+//@ axiom split_nonempty: forall s string :: len(strings.Split(s, ".")) >= 1
+//@ axiom objnotfound_nonnil: plumbing.ErrObjectNotFound != nil
+
+// The name under which a tag reference counts: the tag object's name for an annotated tag, the
+// reference's short name for a lightweight one.
+//@ define annotated(repo *git.Repository, ref *plumbing.Reference) bool = second(repo.TagObject(ref.Hash())) == nil
+//@ define lightweight(repo *git.Repository, ref *plumbing.Reference) bool = second(repo.TagObject(ref.Hash())) == plumbing.ErrObjectNotFound
+//@ define tagName(repo *git.Repository, ref *plumbing.Reference) string = annotated(repo, ref) ? repo.TagObject(ref.Hash()).Name : ref.Name().Short()
+// A full semantic-version tag of the given major: three dot-separated parts, parses, same major.
+//@ define fullOf(s string, major uint64) bool = len(strings.Split(s, ".")) >= 3 && second(semver.NewVersion(s)) == nil && semver.NewVersion(s).Major() == major
+
+// "strictly greater than every existing full semantic-version tag with the same major version": the
+// result of largestTagSemver is an upper bound of all of them, annotated and lightweight alike.
+//@ func (*Tagger).largestTagSemver props=C20
+//@   safety fs-frame
+//@   returns#bound err == nil ==> (forall k int :: 0 <= k && k < seqlen(iter) && (annotated(repo, seqat(iter, k)) || lightweight(repo, seqat(iter, k))) && fullOf(tagName(repo, seqat(iter, k)), major)
+//@         ==> !semver.NewVersion(tagName(repo, seqat(iter, k))).GreaterThan(largestTag))
+//@   returns#result err == nil ==> result == largestTag
+//@   loop 0: invariant#bound forall k int :: 0 <= k && k < $i && (annotated(repo, seqat(iter, k)) || lightweight(repo, seqat(iter, k))) && fullOf(tagName(repo, seqat(iter, k)), major)
+//@         ==> !semver.NewVersion(tagName(repo, seqat(iter, k))).GreaterThan(largestTag)
+
+// Dry-run mutates nothing; a real run deletes and re-creates exactly the full version tag and the
+// major-version tag, both on HEAD, and changes nothing else.
+//@ func (*Tagger).createTag props=C20
+//@   safety fs-frame
+//@   site#real CreateTag: !t.DryRun && $recv == repo && lastErr("Head") == nil
+//@   site#name CreateTag: ($0 == version || $0 == strings.Split(version, ".")[0]) && $1 == hash.Hash()
+//@   site#real DeleteTag: !t.DryRun && $recv == repo
+//@   site#name DeleteTag: $0 == version || $0 == strings.Split(version, ".")[0]
+//@   returns#dry t.DryRun ==> called("CreateTag") == 0 && called("DeleteTag") == 0
+//@   returns#both !t.DryRun && err == nil ==> called("CreateTag") == 2
+
+// Tags are created only for a strictly newer version on a clean work tree.
+//@ func (*Tagger).Tag props=C20
+//@   safety fs-frame
+//@   site#gate createTag: requestedVersion.GreaterThan(previousVersion) && status.IsClean() && lastErr("largestTagSemver") == nil && lastErr("Status") == nil && lastErr("NewVersion") == nil
+//@   site#args createTag: $0 == repo && $1 == fmt.Sprintf("v%s", requestedVersion.String())
+//@   site largestTagSemver: $0 == repo && $1 == requestedVersion.Major() && requestedVersion == semver.NewVersion(t.Version)
+//@   returns#nonew lastErr("largestTagSemver") == nil && lastErr("NewVersion") == nil && lastErr("PlainOpen") == nil && !requestedVersion.GreaterThan(previousVersion) ==> err == ErrNoNewVersion && called("createTag") == 0
+//@   returns#ok err == nil ==> called("createTag") == 1 && lastErr("createTag") == nil
+
+// The dry-run flag (default true) must reach the Tagger: it has to be bound on the viper instance the
+// Tagger is unmarshalled from.
+//@ func NewTagCmd props=C20
+//@   site BindPFlag: $recv == v && $0 == "dry-run"
+//@   site Bool: $0 == "dry-run" && $1 == true
